@@ -198,7 +198,7 @@ def run(ctx) -> None:
                     count += 1
         ctx.exhaustive["field-alphabet-lines"] = count
         # random mutations of valid lines
-        for _ in range(ctx.pick(40000, 600000) // ctx.shard_count):
+        for _ in range(ctx.pick(40000, 3000000) // ctx.shard_count):
             version = rng.choice(VERSIONS)
             head = gens.random_wellformed(rng)
             line = ";".join(str(x) for x in head) + ";" + gens.random_payload(rng, roundtrip_safe=False)
